@@ -29,6 +29,8 @@ SHAPES_Q = [(2,), (3,), (2, 2), (3, 2), (2, 2, 2)]
 SHAPES_T = SHAPES_Q + [(3, 3), (2, 2, 2, 2)]
 KINDS = ["data", "null", "onevar", "partial", "inf"]
 PNAMES = ["b", "a", "d", "c"]
+# the internal dimension: its name contains parameter names as substrings
+TDIM = "tab"
 COORDS = {"num": [[3, 1, 2], [0.5, 1.5, 2.5], [7, 9, 8], [1, 2, 3]],
           "str": [["q", "p", "zz"], ["x", "y", "w"], ["k", "j", "l"],
                   ["u", "v", "t"]]}
@@ -114,9 +116,9 @@ def make_ds(case, assign):
                     arr[loc + (0,)] = np.nan
                 else:
                     arr[loc] = np.nan
-        data[v] = (tuple(names) + (("t",) if has_t else ()), arr)
+        data[v] = (tuple(names) + ((TDIM,) if has_t else ()), arr)
     if internal and internal != "nolabel":
-        coords["t"] = [10, 20]
+        coords[TDIM] = [10, 20]
     ds = xr.Dataset(data, coords=coords)
     if len(names) >= 2 and case.get("stored"):
         # the variables store their axes in another order than the dataset
@@ -200,8 +202,10 @@ def check_case(case):
     for n, assign in enumerate(assignments()):
         ndatasets += 1
         ds, names, coords, locs = make_ds(case, assign)
-        ignore = {"t"} if case["ignore"] else None
-        fn_args = [d for d in ds.dims if not (ignore and d in ignore)]
+        # (the dimension to ignore named in a set or, alternately, as a
+        # plain string)
+        ignore = ({TDIM} if n % 2 else TDIM) if case["ignore"] else None
+        fn_args = [d for d in ds.dims if not (case["ignore"] and d == TDIM)]
         want = oracle(ds, fn_args, method)
         before = ds.copy(deep=True)
         try:
